@@ -571,6 +571,7 @@ func explore(h Harness, tier string, nworkers int) *harnessReport {
 	}
 
 	queue := [][]int64{nil}
+	broken := false // this harness does not load
 	inflight := 0
 	starting := 0
 	var idle []*worker
@@ -600,7 +601,7 @@ func explore(h Harness, tier string, nworkers int) *harnessReport {
 			inflight++
 		}
 		// grow the pool when there is a backlog
-		for len(queue) > 0 && len(idle) == 0 && started+starting < nworkers && starting < 8 && !brokenHarness {
+		for len(queue) > 0 && len(idle) == 0 && started+starting < nworkers && starting < 8 && !broken {
 			go spawn()
 			starting++
 		}
@@ -625,7 +626,10 @@ func explore(h Harness, tier string, nworkers int) *harnessReport {
 				rep.InconclMsgs = appendCapped(rep.InconclMsgs, r.err.Error())
 				if rep.Inconclusive["worker-start-failed"] >= 3 && started == 0 {
 					// the harness does not load (compile error, missing file): the check cannot run
-					fmt.Printf("ERROR harness=%s cannot start: %v\n", h.Name, r.err)
+					if !broken {
+						fmt.Printf("ERROR harness=%s cannot start: %v\n", h.Name, r.err)
+					}
+					broken = true
 					brokenHarness = true
 					queue = nil
 				}
